@@ -2,6 +2,7 @@
 (`Conv/FloatRepr.lean`) instead of the oracle `CEnv.floatRepr`. -/
 import XsdataModel.Props.C05
 import XsdataModel.Proofs.FloatReprL
+import XsdataModel.Proofs.FloatRtFinal
 
 namespace Props.C05
 open Py Xs.Conv Xs.Spec
@@ -64,6 +65,143 @@ theorem shortest_search_sound (m : Nat) (q : Int) (vn vd : Nat) (decpt : Int) (D
   have := shortestSearch_back m q vn vd decpt 18 1 D k h
   have e : -((k : Int) - decpt) = decpt - (k : Int) := by omega
   rwa [e] at this
+
+/-- **Float round trip at the level of doubles, no hypothesis about CPython.**
+For every value of the binary64 format — zeros of both signs, subnormal and normal numbers
+(`m × 2^q` with a 53-bit significand), infinities, NaN — parsing the string `repr` prints and
+rounding it to binary64 gives back the same value: `float(repr(x)) == x` (and the same sign of
+zero), in every Unicode environment. The three ingredients: the shortest-digit search only returns
+decimals that were checked to read back (and otherwise the exact expansion, which reads back by
+idempotence of the rounding); rounding depends on the decimal's value only, not on trailing zeros or
+on how the layout splits it into mantissa and exponent; `float()` reads each layout as the decimal
+it denotes. -/
+theorem float_repr_rt (e : Env) (x : F64) (hx : x.Canonical) :
+    (pyFloatLit e x.repr).map FloatLit.toF64 = some x := by
+  obtain ⟨hnan, hinf, hninf⟩ := pyFloatLit_repr_special e
+  cases x with
+  | nan => simp [F64.repr, hnan, FloatLit.toF64]
+  | inf neg => cases neg <;> simp [F64.repr, hinf, hninf, FloatLit.toF64]
+  | fin neg m q =>
+    by_cases hm0 : m = 0
+    · -- zero, either sign
+      subst hm0
+      have hq : q = -1074 := by
+        unfold F64.Canonical at hx
+        rcases hx with ⟨_, h⟩ | ⟨h, _⟩ | ⟨h, _⟩
+        · exact h
+        · have : 0 < 2 ^ 52 := Nat.pow_pos (by omega)
+          omega
+        · omega
+      subst hq
+      have hshape : PyReprFinite (F64.repr (.fin neg 0 (-1074))) (.fin neg 0 (-1)) := by
+        refine ⟨neg, ['0'], ['0'], none, ?_, by simp, (by intro c hc; simp at hc; subst hc; decide),
+          (by intro c hc; simp at hc; subst hc; decide), trivial, ?_⟩
+        · cases neg <;> rfl
+        · have h1 : digitsNat (['0'] ++ ['0']) = 0 := by decide
+          have h2 : reprExpVal none - ((['0'] : Str).length : Int) = -1 := by decide
+          rw [h1, h2]
+      rw [(float_rt e _ _ hshape).2]
+      simp [FloatLit.toF64, roundDecimal]
+    · have hpc : PosCanonical m q := by
+        unfold F64.Canonical at hx
+        rcases hx with ⟨h, _⟩ | h | h
+        · exact absurd h hm0
+        · exact Or.inl h
+        · exact Or.inr h
+      obtain ⟨hDpos, hback⟩ := shortestDecimal_reads_back m q hpc
+      generalize hDx : shortestDecimal m q = Dx at hDpos hback
+      obtain ⟨D, x⟩ := Dx
+      simp only at hDpos hback
+      obtain ⟨t, hlen, hDval, hc0⟩ := digitsOf_value D hDpos
+      obtain ⟨hne, hdig⟩ := digitsOf_spec D
+      obtain ⟨ip, fp, ex, hlay, h1, h2, h3, h4, hval⟩ :=
+        reprLayout_value (digitsOf D) (x + ((natStr D).length : Int)) hne hdig hc0
+      have hrepr : F64.repr (.fin neg m q) =
+          reprMant neg ip fp ++ reprExp ex := by
+        unfold F64.repr
+        simp only [hm0, if_false, shortestDigits, hDx, hlay]
+        cases neg <;> simp [reprMant]
+      have hshape : PyReprFinite (F64.repr (.fin neg m q))
+          (.fin neg (digitsNat (ip ++ fp)) (reprExpVal ex - (fp.length : Int))) :=
+        ⟨neg, ip, fp, ex, hrepr, h1, h2, h3, h4, rfl⟩
+      rw [(float_rt e _ _ hshape).2]
+      simp only [Option.map_some, FloatLit.toF64, Option.some.injEq]
+      rw [hval neg]
+      have hexp : x + ((natStr D).length : Int) - ((digitsOf D).length : Int) = (x + (t : Int)) := by
+        rw [hlen]; simp; omega
+      rw [hexp]
+      have hz := roundDecimal_zeros neg (digitsNat (digitsOf D)) t (x + (t : Int)) hc0
+      have e2 : x + (t : Int) - (t : Int) = x := by omega
+      rw [e2, ← hDval] at hz
+      rw [← hz, roundDecimal_sign, hback]
+      rfl
+
+example : F64.Canonical (.fin true 1 (-1074)) ∧ F64.Canonical (.fin false (2 ^ 52) 971) ∧
+    F64.Canonical (.fin false 0 (-1074)) := by
+  refine ⟨Or.inr (Or.inr ⟨by decide, by decide, rfl⟩), Or.inr (Or.inl ⟨by decide, by decide, by decide, by decide⟩),
+    Or.inl ⟨rfl, rfl⟩⟩
+
+/-- every value `float()` produces is a value of the binary64 format -/
+theorem toF64_canonical (l : FloatLit) : l.toF64.Canonical := by
+  cases l with
+  | fin neg c x => exact roundDecimal_canonical neg c x
+  | inf neg => trivial
+  | nan => trivial
+
+/-- the wire form `FloatConverter.serialize` writes for a double is read by `float()` as a
+literal that rounds to the same double -/
+theorem float_ser_reads_back (e : Env) (x : F64) (hx : x.Canonical) :
+    ∃ lit, pyFloatLit e (floatSerialize ⟨x.repr⟩) = some lit ∧ lit.toF64 = x := by
+  have acc : ∀ t lit, XsdDouble t lit → pyFloatLit e t = some lit := by
+    intro t lit ht
+    have := float_accepts e [] [] t lit (by intro c h; cases h) (by intro c h; cases h) ht
+    simpa using this
+  have hrt := float_repr_rt e x hx
+  cases x with
+  | fin neg m q =>
+    obtain ⟨lit, hshape⟩ := model_repr_shape neg m q
+    obtain ⟨h1, h2⟩ := float_rt e _ lit hshape
+    rw [h2] at hrt
+    exact ⟨lit, h1, by simpa using hrt⟩
+  | inf neg =>
+    cases neg
+    · have h1 : floatSerialize ⟨F64.repr (.inf false)⟩ = ['I', 'N', 'F'] := by decide
+      exact ⟨.inf false, by rw [h1]; exact acc _ _ (Or.inr (by decide)), rfl⟩
+    · have h1 : floatSerialize ⟨F64.repr (.inf true)⟩ = ['-', 'I', 'N', 'F'] := by decide
+      exact ⟨.inf true, by rw [h1]; exact acc _ _ (Or.inr (by decide)), rfl⟩
+  | nan =>
+    have h1 : floatSerialize ⟨F64.repr .nan⟩ = ['N', 'a', 'N'] := by decide
+    exact ⟨.nan, by rw [h1]; exact acc _ _ (Or.inr (by decide)), rfl⟩
+
+/-- **`FloatConverter`: deserialize ∘ serialize is the identity on every float the converter can
+return** — with `repr` and `float()` both computed in the model (`ModelFloat`), no hypothesis about
+the value: whatever string `s` was read (any spelling Python accepts, any magnitude — overflow to
+`inf`, underflow to a subnormal or zero, `-0`, `nan`), writing the float and reading the written
+form yields the same float (the same double; `nan` as `nan`). -/
+theorem float_de_ser_de (e : CEnv) (hm : ModelFloat e) (s : Str) (f : PyFloat)
+    (h : floatDeserialize e s = some f) :
+    floatDeserialize e (floatSerialize f) = some f := by
+  unfold floatDeserialize at h
+  cases hl : pyFloatLit e.toEnv s with
+  | none => simp [hl] at h
+  | some l =>
+    simp only [hl, Option.some.injEq] at h
+    have hrepr : f.repr = l.toF64.repr := by
+      rw [← h]; simp [hm s, pyFloatReprD, pyFloatRepr, hl]
+    have hf : f = ⟨l.toF64.repr⟩ := by cases f; simp_all
+    obtain ⟨lit, h1, h2⟩ := float_ser_reads_back e.toEnv l.toF64 (toF64_canonical l)
+    rw [hf]
+    unfold floatDeserialize
+    simp only [h1, hm _, pyFloatReprD, pyFloatRepr, Option.map_some, Option.getD_some, h2]
+
+/-- the hypotheses are met by the driver's environment: `-0`, an overflowing and a subnormal
+literal are deserialized there -/
+example : ModelFloat (tblCEnv (pyFloatReprD tblEnv)) ∧
+    floatDeserialize (tblCEnv (pyFloatReprD tblEnv)) ['-', '0'] = some ⟨['-', '0', '.', '0']⟩ ∧
+    floatDeserialize (tblCEnv (pyFloatReprD tblEnv)) ['1', 'e', '9', '9', '9'] = some ⟨['i', 'n', 'f']⟩ ∧
+    floatDeserialize (tblCEnv (pyFloatReprD tblEnv)) ['4', 'E', '-', '3', '2', '4'] =
+      some ⟨['5', 'e', '-', '3', '2', '4']⟩ :=
+  ⟨fun _ => rfl, by decide +kernel, by decide +kernel, by decide +kernel⟩
 
 /-- spellings pinned on concrete doubles (kernel-evaluated): `1e22` is `1e+22` in Python and
 `1E22` on the wire; fixed notation up to `1e16`; the smallest subnormal; a power of two, where
